@@ -53,7 +53,7 @@ pub open spec fn no_rh_for(rs: Seq<ReRun>, host_lower: Seq<char>) -> bool {
 // largest label (in bytes) that the encoder would split the name into
 pub uninterp spec fn max_label(s: Seq<char>) -> nat;
 // every queued re-run is one its handler accepts: search delays within 1 s ..= 1 h, follow-up try counter <= 3
-pub open spec fn cmd_ok(c: Command) -> bool {
+pub open spec fn cmd_sched_ok(c: Command) -> bool {
     match c {
         Command::Browse(_, d, _, _) => 1 <= d <= 3600,
         Command::ResolveHostname(_, d, _, _) => 1 <= d <= 3600,
@@ -61,6 +61,14 @@ pub open spec fn cmd_ok(c: Command) -> bool {
         _ => true,
     }
 }
+// the API hands a name to unregister over already lower-cased (my_services is keyed that way)   (C09)
+pub open spec fn cmd_name_ok(c: Command) -> bool {
+    match c {
+        Command::Unregister(n, _) => n@ == lower(n@),
+        _ => true,
+    }
+}
+pub open spec fn cmd_ok(c: Command) -> bool { cmd_sched_ok(c) && cmd_name_ok(c) }
 pub open spec fn queue_ok(z: Zeroconf) -> bool {
     forall|i: int| 0 <= i < z.retransmissions@.len() ==> cmd_ok((#[trigger] z.retransmissions@[i]).command)
 }
@@ -132,7 +140,9 @@ impl ServiceDaemon {
     // daemon is one its handlers accept (search delays within 1 s ..= 1 h)   (C19)
     #[verifier::external_body]
     pub fn send_cmd(&self, cmd: Command) -> (r: Result<()>)
-        requires cmd_ok(cmd), // @props C19
+        requires
+            cmd_sched_ok(cmd), // @props C19
+            cmd_name_ok(cmd), // @props C09
     { unimplemented!() }
 }
 // proved in unit validate
